@@ -13,7 +13,7 @@ from harness.props import c11 as C11
 
 RULE = ("elements, substances (formula string or dict of elements) and materials (1..5 substances, dict or '<..>' "
         "string, every norm_type) with a mass density or a number density (sometimes both) and optionally a volume, "
-        "log-uniform positive values, a quarter of the composites modified after construction with add() of a present or a new component, substances with their own proportion != 1, tables of selected components requested before and after the full table, the quantity=True form of the table compared cell by cell, quantities handed out by the object (attributes, constructor arguments, table cells, component masses) converted in place before reading / before add() on 30 % of the cases, histories (operand with a density in a + b / b + a, add() on the sum, operand re-read), each quantity given in a randomly chosen compatible unit and a second time in another "
+        "log-uniform positive values, a quarter of the composites modified after construction with add() of a present or a new component, substances with their own proportion != 1, tables of selected components requested before and after the full table, the quantity=True form of the table compared cell by cell, the public attributes composite_mass / component_mass read after construction, quantities handed out by the object (attributes, constructor arguments, table cells, component masses) converted in place before reading / before add() on 30 % of the cases, histories (operand with a density in a + b / b + a, add() on the sum, operand re-read), each quantity given in a randomly chosen compatible unit and a second time in another "
         "unit; corpus first. non-trivial = at least two components and a volume or a non-standard unit; distinct = "
         "canonical JSON of the case")
 ASSUMPTIONS = [
@@ -206,6 +206,11 @@ def observe(case, obj):
         out["m"] = [float(dc[k].mass) for k in keys]
         out["mode"] = case.get("mode", "NUMBER") if case["kind"] == "material" else "NUMBER"
     out["keys"] = keys
+    if out["mode"] != "MASS_FRACTION":
+        # public attributes: the mass of one formula unit (and, for components, of one unit of the component)
+        out["composite_mass"] = float(obj.composite_mass.value('Da'))
+        if case["kind"] != "material":
+            out["component_mass"] = float(obj.component_mass.value('Da'))
     out["rho"] = float(obj.mass_density.value('g/cm3'))
     out["n"] = float(obj.number_density.value('cm-3'))
     hasvol = case.get("vol") is not None
@@ -361,6 +366,19 @@ def judge(case, imp, res, imp2=None):
         if set(got) != set(want) or any(not close(got[k], want[k]) for k in want):
             viol.append(("matter:composition-changed", "the %s was given the composition %s but now holds %s" % (case["kind"], want, got)))
             return viol, dis
+    # ---- public attributes: composite_mass = sum p_i m_i (the formula unit of the spec); component_mass = one unit
+    if imp.get("composite_mass") is not None:
+        unit_mass = math.fsum(p * m for p, m in zip(imp["p"], imp["m"]))
+        if not close(imp["composite_mass"], unit_mass):
+            viol.append(("matter:attribute:composite_mass", "composite_mass of the %s is %r Da, the formula unit sum(p_i*m_i) is %r Da" %
+                         (case["kind"], imp["composite_mass"], unit_mass)))
+            return viol, dis
+        if imp.get("component_mass") is not None:
+            one = imp["m"][0] if case["kind"] == "element" else unit_mass
+            if not close(imp["component_mass"], one):
+                viol.append(("matter:attribute:component_mass", "component_mass of the %s is %r Da, expected %r Da" %
+                             (case["kind"], imp["component_mass"], one)))
+                return viol, dis
     # ---- tables are views: selections list the selected rows of the full table, the full table lists everything
     if imp.get("full_keys") is not None and imp["full_keys"] != imp["keys"]:
         viol.append(("matter:selection", "data_matter() after data_matter(components=…) lists %s, the components are %s" % (imp["full_keys"], imp["keys"])))
